@@ -97,6 +97,12 @@ def _row_preprocess(name):
         return scared.preprocesses.square
     if name == 'topower3':
         return scared.preprocesses.ToPower(3, precision='float64')
+    if name == 'cumsum':
+        # a preprocess that mixes the samples of a trace: it must see the samples of the frame, in the order of the frame
+        @scared.preprocess
+        def cumsum(traces):
+            return np.cumsum(traces.astype('float64'), axis=1)
+        return cumsum
     return None
 
 
@@ -106,6 +112,8 @@ def _apply_oracle_pre(x, name, frame):
         return x.astype(np.result_type(x.dtype, 'float32')) ** 2
     if name == 'topower3':
         return x.astype('float64') ** 3
+    if name == 'cumsum':
+        return np.cumsum(x.astype('float64'), axis=1)
     return x
 
 
@@ -118,7 +126,7 @@ def _run_once(case, schedule_override=None):
     gates = []
     results = []
     raised = None
-    effective, pending, refused_seen = [], [], []
+    effective, pending, refused_seen, hand_pending = [], [], [], []
     base_threads = threading.active_count()
     numba.set_num_threads(min(case['nthreads'], numba.config.NUMBA_NUM_THREADS))
     scared.set_batch_size(case['batch_size'])
@@ -141,7 +149,10 @@ def _run_once(case, schedule_override=None):
                         time.sleep(0.005)
                 else:
                     # accepted by the code: these traces are part of the history then
-                    pending.append((w1.astype('float64'), w2.astype('float64')))
+                    pending.append((w1.astype(w1.dtype.newbyteorder('=')), w2.astype(w2.dtype.newbyteorder('='))))      # same values, native byte order
+            if hand_pending:
+                pending.extend(hand_pending)
+                del hand_pending[:]
             ths1 = dist.ram_ths(samples=run['set1'])
             ths2 = dist.ram_ths(samples=run['set2'])
             gate = _Gate(analysis, c if run_idx == 0 else dict(c, fault=None))
@@ -173,9 +184,18 @@ def _run_once(case, schedule_override=None):
             finally:
                 scared.TTestThreadAccumulator.run = orig_update
             results.append(np.array(analysis.result, copy=True))
+            hf = (case.get('hand_fed') or {}).get(str(run_idx))
+            if hf is not None and run_idx + 1 < len(case['runs']):
+                # between two runs one accumulator is fed by hand from the main thread (its documented run(container) entry point): these traces
+                # belong to that set from then on
+                extra = np.asarray(hf['set'])
+                pre_h = [p_ for p_ in [_row_preprocess(case['preprocess'])] if p_ is not None]
+                analysis.accumulators[int(hf['acc'])].run(scared.Container(dist.ram_ths(samples=extra), frame=case['frame'], preprocesses=pre_h))
+                empty = extra[:0]
+                hand_pending.append((extra, empty) if int(hf['acc']) == 0 else (empty, extra))
             if pending:
-                effective.append({'set1': np.concatenate([p[0] for p in pending] + [run['set1'].astype('float64')]),
-                                  'set2': np.concatenate([p[1] for p in pending] + [run['set2'].astype('float64')])})
+                # same dtype as the run's own sets whenever possible: the oracle applies the preprocess in the arithmetic of that dtype
+                effective.append({'set1': [p[0] for p in pending] + [run['set1']], 'set2': [p[1] for p in pending] + [run['set2']]})
                 del pending[:]
             else:
                 effective.append(run)
@@ -221,7 +241,7 @@ def check_ttest(ctx, case):
     if case.get('refused_runs') and not analysis._verif_refused_seen:
         ctx.count('refused_run_was_accepted')
     # schedule independence: same data under another schedule must be bit-identical in the exact regime
-    labels = ['refused_run_in_history'] if analysis._verif_refused_seen else []
+    labels = (['refused_run_in_history'] if analysis._verif_refused_seen else []) + (['accumulator_fed_by_hand_between_runs'] if case.get('hand_fed') else [])
     if case['regime'] == 'exact' and case['sched_mode'] == 'tokens' and case.get('alt_schedule') is not None and fault is None:
         a2, g2, r2, _ = must(case, 'TTestAnalysis.run (alternative schedule)', _run_once, case, case['alt_schedule'])
         for k, (x, y) in enumerate(zip(results, r2)):
@@ -244,8 +264,10 @@ def _compare(ctx, case, analysis, results, eps, prefix):
     x1 = x2 = None
     total = 0
     for k, run in enumerate(case['runs'][:len(results)]):
-        a = _apply_oracle_pre(run['set1'], case['preprocess'], frame)
-        b = _apply_oracle_pre(run['set2'], case['preprocess'], frame)
+        # a run may consist of several pieces (traces accepted outside the regular runs come first): the preprocess is applied to each piece
+        # in the arithmetic of ITS dtype, as the library does batch by batch
+        a = np.concatenate([_apply_oracle_pre(p_, case['preprocess'], frame) for p_ in (run['set1'] if isinstance(run['set1'], list) else [run['set1']])])
+        b = np.concatenate([_apply_oracle_pre(p_, case['preprocess'], frame) for p_ in (run['set2'] if isinstance(run['set2'], list) else [run['set2']])])
         x1 = a if x1 is None else np.concatenate([x1, a])
         x2 = b if x2 is None else np.concatenate([x2, b])
         total = len(x1) + len(x2)
@@ -300,7 +322,7 @@ def ttest_cases(draw, large=False):
     regime = draw(st.sampled_from(['exact', 'exact', 'rounded']))
     nruns = draw(st.sampled_from([1, 1, 2, 3])) if not large else 1
     L = draw(st.integers(1, 6)) if not large else draw(st.integers(1, 2))
-    pre = draw(st.sampled_from([None, None, 'square', 'topower3'])) if not large else None
+    pre = draw(st.sampled_from([None, None, 'square', 'topower3', 'cumsum'])) if not large else None
     bs = draw(st.integers(1, 25))
     sizes = [(draw(st.one_of(st.integers(1, 12), st.integers(1, 80))), draw(st.one_of(st.integers(1, 12), st.integers(1, 80)))) for _ in range(nruns)]
     if large:
@@ -313,7 +335,7 @@ def ttest_cases(draw, large=False):
         # make tail batches of exactly one trace likely
         sizes[0] = (bs * draw(st.integers(1, 3)) + 1, sizes[0][1])
     ntot = sum(a + b for a, b in sizes)
-    power = {None: 1, 'square': 2, 'topower3': 3}[pre]
+    power = {None: 1, 'square': 2, 'topower3': 3, 'cumsum': 2}[pre]
     if precision == 'float32':
         B = max(1, int((2 ** 22 / ntot) ** (1.0 / (2 * power))))
     else:
@@ -332,14 +354,20 @@ def ttest_cases(draw, large=False):
     runs = [{'set1': mk(a, 0), 'set2': mk(b, draw(st.sampled_from([0, 1])))} for a, b in sizes]
     if regime == 'exact' and draw(st.integers(0, 4)) == 0:
         runs[0]['set1'][:, 0] = runs[0]['set1'][0, 0]      # a constant column
-    frame = draw(st.sampled_from([None, None, 'slice', 'list', 'range']))
-    if frame == 'range':
+    frame = draw(st.sampled_from([None, None, 'slice', 'list', 'range'] + (['mask'] if L >= 2 else [])))
+    fk_ = frame
+    if fk_ == 'mask':
+        # a boolean mask selecting at least two samples (a mask with a single True is refused: the trace reader hands back a scalar per trace)
+        frame = np.array([draw(st.booleans()) for _ in range(L)])
+        for i_ in draw(st.permutations(list(range(L))))[:2]:
+            frame[i_] = True
+    if fk_ == 'range':
         a = draw(st.integers(0, L - 1))
         frame = range(a, draw(st.integers(a + 1, L)), draw(st.sampled_from([1, 2, 3])))
-    if frame == 'slice':
+    if fk_ == 'slice':
         a = draw(st.integers(0, L - 1))
         frame = slice(a, draw(st.integers(a + 1, L)), draw(st.sampled_from([1, 2])))
-    elif frame == 'list':
+    elif fk_ == 'list':
         frame = draw(st.lists(st.integers(0, L - 1), min_size=1, max_size=4))
     mode = draw(st.sampled_from(['tokens', 'tokens', 'tokens', 'sleeps', 'free'])) if not large else 'free'
     nb = sum(math.ceil(a / bs) + math.ceil(b / bs) for a, b in sizes[:1])
@@ -349,10 +377,13 @@ def ttest_cases(draw, large=False):
     fault = None
     if not large and draw(st.integers(0, 4)) == 0:
         fault = (draw(st.integers(0, 1)), draw(st.integers(0, 4)))
+    hand_fed = {}
+    if not large and fault is None and nruns >= 2 and draw(st.integers(0, 3)) == 0:
+        hand_fed = {str(draw(st.integers(0, nruns - 2))): {'acc': draw(st.integers(0, 1)), 'set': mk(draw(st.integers(1, 12)), 0)}}
     refused_runs = {}
     if not large and fault is None and draw(st.integers(0, 3)) == 0:
         refused_runs = {str(draw(st.integers(0, nruns - 1))): draw(st.sampled_from(['float16', '>i2', '>f4', 'complex64']))}
-    return {'kind': 'ttest', 'refused_runs': refused_runs, 'precision': precision, 'regime': regime, 'runs': runs, 'batch_size': bs, 'frame': frame, 'preprocess': pre,
+    return {'kind': 'ttest', 'hand_fed': hand_fed, 'refused_runs': refused_runs, 'precision': precision, 'regime': regime, 'runs': runs, 'batch_size': bs, 'frame': frame, 'preprocess': pre,
             'nthreads': draw(st.sampled_from([1, 2, 5, 16])), 'sched_mode': mode, 'schedule': schedule, 'alt_schedule': alt, 'sleeps': sleeps, 'fault': fault}
 
 
